@@ -177,7 +177,7 @@ CHECKS = {
         design="4/C06",
     ),
     "C19": dict(
-        specs=["Client.tla", "ClientIO.tla"],
+        specs=["Client.tla", "ClientIO.tla", "ClientSetup.tla", "BeaconLoop.tla"],
         text="Client.tla models the handler registry (register_task / @handle / @catch_all), the class-level on_<command> methods "
         "and the dispatch of one task; TLC checks over every interleaving of registrations and dispatches that each dispatch "
         "calls exactly the expected handlers once and leaves the registry unchanged (the first-found in-place extension is "
@@ -185,7 +185,12 @@ CHECKS = {
         "three registration APIs on a fresh subclass and every single dispatch, ordered pair and same-command triple is driven "
         "through the real _beacon_loop with get_task stubbed. Identity (even id < 2^31 or ValueError), deterministic keys = "
         "SHA-256 split, jitter band and metadata size for ASCII and non-ASCII names are recorded from run(dry_run=True) and "
-        "judged by TLC.",
+        "judged by TLC. BeaconLoop.tla is the whole main loop with the real get_task and send_callback (check-in outcomes: network "
+        "error, status error, empty answer, NOOP, task, answer that does not decrypt; handlers that return nothing, raise, answer, "
+        "answer with an unknown callback id; POST outcomes): TLC checks one sleep per iteration, fresh callback counters on the "
+        "wire, exactly-once dispatch, the empty task only for a silent client and that failures never end the loop (three variants "
+        "rejected); every maximal path of its dumped graph is played to the real loop through a replaced httpx.request, with a "
+        "record writer attached, and the observed events, counters (decrypted by an independent peer) and sleep times compared.",
         note="Trusted: TLC, Client.tla Expected, hashlib. Ids outside [0, 2^31) may be rejected or normalised. No network: get_task, "
         "send_callback and time.sleep are stubbed on the instance / in the harness process.",
         technique="TLA+ registry state machine (TLC) + state-graph replay through the real loop; set-ups judged by TLC",
